@@ -213,7 +213,9 @@ def work_strings(job):
 
 
 ERRS = ('#NUM!', '#VALUE!', '#N/A', '#DIV/0!', '#REF!', '#NAME?', '#NULL!')
-ODD_PLACES = [0, -1, 11, 12, 100, 10 ** 6, 2.9, 10.5, 0.5, '4', '10', '11', 'abc', '', ' ', '#N/A', '#DIV/0!', None, True, False]
+ODD_PLACES = [0, -1, 11, 12, 100, 10 ** 6, 2.9, 10.5, 0.5, '4', '10', '11', 'abc', '', ' ', '#N/A', '#DIV/0!', None, True, False,
+              '1_0', '0x4', '1e1', 'inf', 'nan']
+ODD_NUMBERS = ['1_0', '1__0', '_5', '5_', 'inf', 'nan', '0x5', '1e1', '5.0', ' 5', '+5', '--5']
 
 
 def work_oddargs(job):
@@ -249,7 +251,7 @@ def work_oddargs(job):
                     ok = r in ERRS
                 elif isinstance(pl, str):
                     try:
-                        pv = int(pl)
+                        pv = int(pl) if pl.strip().isdigit() else int('x')
                     except ValueError:
                         ok = r in ERRS
                     else:
@@ -265,6 +267,50 @@ def work_oddargs(job):
                 if not ok:
                     acc.violation(dict(case, verdict='wrong-places-handling', observed=jsonable(r)),
                                   f'{f} with n={n} places={pl!r} = {r!r}; expected an error value or {exp!r} padded to at most 10 digits')
+    # a range / array constant where one value belongs (places, number), texts that only python reads as integers
+    env = {'A1': 5, 'P1': 4, 'P2': 6}
+    for f in (f'=DEC2{name}(A1,P1:P2)', f'=DEC2{name}(A1,{{4}})', f'=DEC2{name}(A1,{{4,6}})', f'=BIN2{name if b != 2 else "OCT"}("101",P1:P2)',
+              f'=DEC2{name}(P1:P2)', f'=DEC2{name}(P1:P2,4)'):
+        o = ev.run(f, env)
+        acc.add('evaluations')
+        acc.add('states')
+        case = dict(kind='odd', fn=f.split('(')[0][1:], formula=f)
+        if o[0] != 'ok':
+            acc.violation(dict(case, verdict='raised', exc=o[1]), f'{f} (P1:P2 = 4, 6) raised {o[1]}: {o[2][-80:]}')
+        elif not (o[1] in ERRS or (isinstance(o[1], str) and len(o[1]) <= 10)):
+            acc.violation(dict(case, verdict='wrong-places-handling', observed=jsonable(o[1])), f'{f} = {o[1]!r}')
+    for txt in ODD_NUMBERS:
+        o = ev.run(f'=DEC2{name}(A1)', {'A1': txt})
+        acc.add('evaluations')
+        acc.add('states')
+        case = dict(kind='odd', fn=f'DEC2{name}', x=txt)
+        ok_vals = set(ERRS)
+        if txt.strip().lstrip('+').replace('.0', '').isdigit():
+            ok_vals.add(to_base(int(float(txt)), b))          # plain decimal spellings may be read as the number
+        if o[0] != 'ok':
+            acc.violation(dict(case, verdict='raised', exc=o[1]), f'=DEC2{name}({txt!r}) raised {o[1]}')
+        elif o[1] not in ok_vals:
+            acc.violation(dict(case, verdict='accepted-illegal', observed=jsonable(o[1])),
+                          f'=DEC2{name}({txt!r}) = {o[1]!r}; the text is not a decimal number, expected an error value')
+    # a blank cell as the number: the direct conversion equals the composition through decimal
+    for b2 in BASES:
+        if b2 == b:
+            continue
+        n2 = BASES[b2][0]
+        d = ev.run(f'={name}2{n2}(A1)', {})
+        c = ev.run(f'=DEC2{n2}({name}2DEC(A1))', {})
+        acc.add('evaluations', 2)
+        acc.add('states')
+        if d[0] != 'ok' or d[:2] != c[:2]:
+            acc.violation(dict(kind='odd', fn=f'{name}2{n2}', verdict='differs-from-composition', x=None, blank=True,
+                               observed=jsonable(d[:2]), expected=jsonable(c[:2])),
+                          f'={name}2{n2}(<blank cell>) = {d[:2]!r} but DEC2{n2}({name}2DEC(<blank cell>)) = {c[:2]!r}')
+    d0, dz = ev.run(f'=DEC2{name}(A1)', {}), ev.run(f'=DEC2{name}(A1)', {'A1': 0})
+    acc.add('evaluations', 2)
+    if d0[:2] != dz[:2] and not (d0[0] == 'ok' and d0[1] in ERRS and False):
+        acc.violation(dict(kind='odd', fn=f'DEC2{name}', verdict='blank-differs-from-zero', x=None, blank=True,
+                           observed=jsonable(d0[:2]), expected=jsonable(dz[:2])),
+                      f'=DEC2{name}(<blank cell>) = {d0[:2]!r} but DEC2{name}(0) = {dz[:2]!r} (and {name}2DEC(<blank>) is 0)')
     # fractional numbers: the digits of an adjacent integer (or #NUM! past the range), never an exception
     for n in [0, 1, 2, 5, h - 2, h - 1, -1, -2, -h + 1, -h, h, -h - 1]:
         for fr in (0.25, 0.5, 0.75):
